@@ -253,11 +253,15 @@ func (x *explorer) fail(e *Exec, msg string) {
 	}
 	x.seen[class] = true
 	et := Run(RunOpts{Prefix: ch, Expect: e.points, BoundP: x.p, BoundT: x.opt.T, Horizon: x.opt.Horizon, Trace: true}, x.body)
+	// with call sites captured the checker may refine the cause key
+	if m2 := x.check(et); m2 != "" {
+		msg = m2
+	}
 	tr := et.trace
 	if len(tr) > 400 {
 		tr = tr[len(tr)-400:]
 	}
-	f := &Failure{Choices: ch, Msg: msg, Outcome: e.Outcome, Blocked: e.Blocked(), Panics: e.panics, P: e.usedP, T: e.usedT, Trace: tr}
+	f := &Failure{Choices: ch, Msg: msg, Outcome: e.Outcome, Blocked: et.Blocked(), Panics: e.panics, P: e.usedP, T: e.usedT, Trace: tr}
 	x.st.Failures = append(x.st.Failures, f)
 	if !x.opt.KeepGoing || len(x.st.Failures) >= 20 {
 		x.stop = true
